@@ -308,6 +308,27 @@ func oracleC06(x *Ctx, in Input, a *Analysis, c Cfg, r *Res) (long int) {
 			if len(e.Points) != span+1 {
 				x.Violate("C06:polyline-bends", &c, nil, fmt.Sprintf("polyline route of %s->%s spans %d bands but has %d points (want %d)\n%s", e.FromID, e.ToID, span, len(e.Points), span+1, describeLayout(r.L)))
 			}
+			// one bend per intermediate band: the j-th bend lies within the vertical extent of the j-th band below the upper endpoint
+			if len(e.Points) == span+1 && span > 1 {
+				comp := a.Comp[fi]
+				top := v.bandIndex(fi)
+				if b := v.bandIndex(ti); b < top {
+					top = b
+				}
+				for j := 1; j < span; j++ {
+					bt := v.bands[comp][top+j]
+					bb := bt
+					for k, nd := range v.node {
+						if a.Comp[k] == comp && nd.Y == bt && nd.Y+nd.H > bb {
+							bb = nd.Y + nd.H
+						}
+					}
+					if y := e.Points[j][1]; y < bt || y > bb {
+						x.Violate("C06:bend-outside-band", &c, nil, fmt.Sprintf("bend %d of %s->%s at y=%g is not inside its intermediate band [%g,%g]\n%s", j, e.FromID, e.ToID, y, bt, bb, describeLayout(r.L)))
+						break
+					}
+				}
+			}
 			for i := 1; i < len(e.Points); i++ {
 				if e.Points[i][1] < e.Points[i-1][1] {
 					x.Violate("C06:polyline-upward", &c, nil, fmt.Sprintf("polyline route of %s->%s goes upward: %v", e.FromID, e.ToID, e.Points))
